@@ -212,7 +212,24 @@ func (env *Env) bufferWrites(e *flow.Engine, fn *ssa.Function, buf *flow.Term, s
 		}
 		return flow.Eq(t, buf)
 	}
-	addWrite := func(dst, src *flow.Term, kind string, width int64, pos string) {
+	var addWrite func(dst, src *flow.Term, kind string, width int64, pos string)
+	addWrite = func(dst, src *flow.Term, kind string, width int64, pos string) {
+		// a write driven by a literal table of fields (`for _, f := range table {
+		// copy(buf[f.start:f.end], f.value) }`): one write per row
+		if it, rows := tableIter(dst, src); it != nil {
+			its := it.String()
+			for k := 0; k < rows; k++ {
+				kc := flow.C(fmt.Sprint(k))
+				sub := func(x *flow.Term) *flow.Term {
+					if x.Op == flow.OpIter && x.String() == its {
+						return kc
+					}
+					return nil
+				}
+				addWrite(flow.Subst(dst, sub), flow.Subst(src, sub), kind, width, pos)
+			}
+			return
+		}
 		d := flow.StripConv(dst)
 		if isBuf(d) {
 			// whole-buffer destination: [0, end)
@@ -258,33 +275,33 @@ func (env *Env) bufferWrites(e *flow.Engine, fn *ssa.Function, buf *flow.Term, s
 			segs = append(segs, seg{lo, hi, f, kind, el, pos})
 		}
 	}
-	for _, b := range fn.Blocks {
-		for _, in := range b.Instrs {
-			c, ok := in.(*ssa.Call)
-			if !ok {
-				continue
-			}
-			pos := env.P.Pos(c.Pos())
-			if bi, ok := c.Call.Value.(*ssa.Builtin); ok && bi.Name() == "copy" {
-				addWrite(e.Eval(c.Call.Args[0], e.Root(fn)), e.Eval(c.Call.Args[1], e.Root(fn)), "bytes", 0, pos)
-				continue
-			}
-			if cal := c.Call.StaticCallee(); cal != nil {
-				switch cal.String() {
-				case "(encoding/binary.littleEndian).PutUint16":
-					addWrite(e.Eval(c.Call.Args[1], e.Root(fn)), e.Eval(c.Call.Args[2], e.Root(fn)), "u16", 2, pos)
-				case "(encoding/binary.littleEndian).PutUint32":
-					addWrite(e.Eval(c.Call.Args[1], e.Root(fn)), e.Eval(c.Call.Args[2], e.Root(fn)), "u32", 4, pos)
-				case "(encoding/binary.littleEndian).PutUint64":
-					addWrite(e.Eval(c.Call.Args[1], e.Root(fn)), e.Eval(c.Call.Args[2], e.Root(fn)), "u64", 8, pos)
-				case "(encoding/binary.bigEndian).PutUint16", "(encoding/binary.bigEndian).PutUint32", "(encoding/binary.bigEndian).PutUint64":
-					if strings.Contains(e.Eval(c.Call.Args[1], e.Root(fn)).String(), buf.String()) {
-						problems = append(problems, pos+": big-endian write in a little-endian layout")
-					}
+	// every write on the inlined call tree below fn (helpers such as a
+	// table-driven putFields are seen through), evaluated on its call string
+	e.Walk(fn, false, func(in ssa.Instruction, fr flow.Frame) {
+		c, ok := in.(*ssa.Call)
+		if !ok {
+			return
+		}
+		pos := env.P.Pos(c.Pos())
+		if bi, ok := c.Call.Value.(*ssa.Builtin); ok && bi.Name() == "copy" {
+			addWrite(e.Eval(c.Call.Args[0], fr.Ctx), e.Eval(c.Call.Args[1], fr.Ctx), "bytes", 0, pos)
+			return
+		}
+		if cal := c.Call.StaticCallee(); cal != nil {
+			switch cal.String() {
+			case "(encoding/binary.littleEndian).PutUint16":
+				addWrite(e.Eval(c.Call.Args[1], fr.Ctx), e.Eval(c.Call.Args[2], fr.Ctx), "u16", 2, pos)
+			case "(encoding/binary.littleEndian).PutUint32":
+				addWrite(e.Eval(c.Call.Args[1], fr.Ctx), e.Eval(c.Call.Args[2], fr.Ctx), "u32", 4, pos)
+			case "(encoding/binary.littleEndian).PutUint64":
+				addWrite(e.Eval(c.Call.Args[1], fr.Ctx), e.Eval(c.Call.Args[2], fr.Ctx), "u64", 8, pos)
+			case "(encoding/binary.bigEndian).PutUint16", "(encoding/binary.bigEndian).PutUint32", "(encoding/binary.bigEndian).PutUint64":
+				if strings.Contains(e.Eval(c.Call.Args[1], fr.Ctx).String(), buf.String()) {
+					problems = append(problems, pos+": big-endian write in a little-endian layout")
 				}
 			}
 		}
-	}
+	})
 	sort.Slice(segs, func(i, j int) bool { return segs[i].lo < segs[j].lo })
 	return
 }
@@ -626,4 +643,31 @@ func (env *Env) predicateSizes(chk string, segs []seg, prop string) {
 		}
 	}
 	_ = load.RepoModule
+}
+
+// tableIter finds, in the destination / source of a write, the loop counter
+// that indexes a finite literal sequence (a table of rows), and its length.
+func tableIter(ts ...*flow.Term) (*flow.Term, int) {
+	var it *flow.Term
+	rows := 0
+	for _, t := range ts {
+		if t == nil {
+			continue
+		}
+		t.Walk(func(x *flow.Term) bool {
+			if it != nil {
+				return false
+			}
+			if x.Op == flow.OpIndex && len(x.Args) == 2 {
+				if i := flow.StripConv(x.Args[1]); i.Op == flow.OpIter {
+					if els, ok := flow.SeqElems(x.Args[0]); ok && len(els) > 0 && len(els) <= 64 {
+						it, rows = i, len(els)
+						return false
+					}
+				}
+			}
+			return true
+		})
+	}
+	return it, rows
 }
